@@ -365,7 +365,38 @@ def eval_mixed_ids(case):
     return {'v': v, 'nt': tuple(case), 'out': 'mixed'}
 
 
-REPLAY = _R({'raw': eval_raw, 'files': eval_file, 'mixed-ids': eval_mixed_ids})
+def eval_generated(case):
+    """delegation / combined models produced by the C13 / C14 generators"""
+    kind = case[0]
+    v = []
+    from checks import c14
+    from fimmc.substrate import build_site, annotate
+    world.reset_all()
+    gids = []
+    if kind == 'site-adms':
+        t, ids = build_site('A', workers=2, facility=True, second_switch=True)
+        arm = t.as_arm()
+        w = ids['workers']
+        annotate(arm, w[0]['node'], 'LC@d1')
+        annotate(arm, w[0]['ports'][0], 'LC@d1')
+        annotate(arm, w[1]['node'], 'LC@d2')
+        annotate(arm, w[1]['comp'], 'L@d1,C@d2')
+        annotate(arm, ids['facility']['port'], 'pooldef@d1', pool_tag='f')
+        gids.append(arm.graph_id)
+        for did, adm in arm.generate_adms(delegation_guids={'d1': 'ADM-1', 'd2': 'ADM-2'}).items():
+            gids.append(adm.graph_id)
+    else:
+        m = c14.CBMModel('F4')
+        m.build_root('F4')
+        for a in case[1]:
+            m.apply(('merge', a))
+        gids = ['CBM'] + list(case[1])
+    for gid in gids:
+        roundtrip('shared', gid, v, f'[generated {kind} {case[1:]} graph {gid}]')
+    return {'v': v, 'nt': tuple(case), 'out': kind}
+
+
+REPLAY = _R({'raw': eval_raw, 'files': eval_file, 'mixed-ids': eval_mixed_ids, 'generated': eval_generated})
 
 
 def run(report):
@@ -378,6 +409,11 @@ def run(report):
     explore_cases(report, 'mixed-ids', eval_mixed_ids, [(0,), (1,)], chunk=1, workers=1, rule='texts carrying two GraphIDs x direct entries')
     files = [(f,) for f in sorted(os.listdir('/repo')) if f.endswith('-ad.graphml')]
     explore_cases(report, 'files', eval_file, files, chunk=1, rule='advertisement files shipped in the repository')
+    gen = [('site-adms',), ('cbm', ('ADM-A',)), ('cbm', ('ADM-A', 'ADM-N1')), ('cbm', ('ADM-N1', 'ADM-B', 'ADM-A')),
+           ('cbm', ('ADM-A', 'ADM-B', 'ADM-N1', 'ADM-N2')), ('cbm', ('ADM-N2', 'ADM-N1'))]
+    explore_cases(report, 'generated', eval_generated, gen, chunk=1,
+                  rule='aggregate, delegation and combined models produced by the generators of C13 / C14 (partitioned site model with '
+                       'two delegation ids and a pool; combined model after 1-4 merges in different orders) through all entry points')
     q = report.tier == 'quick'
     for fl, roots, depth in (('exp', ['empty'], 3 if q else 4), ('exp', ['R1', 'R2'], 1 if q else 2), ('sub', ['S0', 'S1', 'S2'], 2 if q else 3)):
         m = TOPO[fl]
